@@ -80,3 +80,9 @@ Fixpoint b_read_all_from1 (me buf : Z) (c : bytes) (fuel : nat) (s : rstate) : l
       | (Some (str, _), s') => let (l, e) := b_read_all_from1 me buf c fuel s' in (str :: l, e)
       end
   end.
+
+(** Round 7.  Variant (NOT the code): readQLogTimestamp looking for the
+    marker in the first [n] bytes of the line only ([str = str[:n]] before
+    readJSONValue). *)
+Definition read_qlog_ts_prefix (n : Z) (o : bytes -> Z) (line : bytes) : Z :=
+  read_qlog_ts o (takeZ line n).
